@@ -138,13 +138,17 @@ def newContainsMatch (sig : Sig) (alts : List Alt) (results : List Res) : Except
   let e ← resolveIn sig 0 alts
   pure { kind := .contains e, results := results, cur := 0 }
 
+/-- ordinary (non-slice) arguments as values; a packed slice anywhere but last is outside the model -/
+def ones : List Arg → Except Err (List Val)
+  | [] => .ok []
+  | .one v :: r => match ones r with | .ok vs => .ok (v :: vs) | .error e => .error e
+  | .pack _ :: _ => .error .unmodelled
+
 /-- What `Match` does to the callback's arguments before looking at expressions: `args[1:]` for a method
     (matcher.go:116,178), and for a variadic function the **last** argument — the packed tail — is expanded element
     by element (matcher.go:119, arg/expr.go:99, repaired code; `reflect.Value.Len` panics on a non-slice). -/
 def normalize (sig : Sig) (args : List Arg) : Except Err (List Val) :=
   let args := if sig.isMethod then args.drop 1 else args
-  let ones (l : List Arg) : Except Err (List Val) :=
-    l.mapM (fun a => match a with | .one v => pure v | .pack _ => throw Err.unmodelled)
   if sig.variadic && !args.isEmpty then
     match args.getLast? with
     | some (.pack vs) => do let f ← ones args.dropLast; pure (f ++ vs)
